@@ -17,7 +17,7 @@ ID = 'C04'
 MANIFEST = {
     'engine': 'symx',
     'text': 'Bounded symbolic model checking of the real stratified_subsampling / estimator source with the contents of np.empty modelled as arbitrary values: for all vectors within the bound and all ratios k/8, z3 shows (1) no never-written cell of the index buffer is read and every index is in range, (2) the sampled rows are exactly the per-stratum prefixes with quota floor(floor(r*n)/#values) (all rows when 0), (3) the score is unchanged for every feature vector that agrees on the sampled rows. (1) implies the result cannot depend on allocator history. Memory-safety counterexamples are replayed in fresh interpreters after poisoning numba\'s allocator with different byte patterns.',
-    'note': 'The real allocator is replaced by "any bytes"; ratios restricted to k/8 (exact in float32 so int(r*n) agrees with the compiled code); exact reals; n<=4 quick, n<=5/6 thorough.',
+    'note': 'Targets with 33..64 strata are covered with a concrete target, a symbolic feature vector and solver-chosen tie orders for unstable sorts. The real allocator is replaced by "any bytes"; ratios restricted to k/8 (exact in float32 so int(r*n) agrees with the compiled code); exact reals; n<=4 quick, n<=5/6 thorough.',
     'technique': 'symbolic execution of the real Python source with z3, uninitialised cells as fresh unconstrained integers, out-of-range/uninitialised reads as reachability queries',
 }
 
@@ -26,12 +26,16 @@ BOUNDS = {
     'thorough': {'memsafe': [(4, 3), (5, 3), (6, 2), (4, 4), (7, 2), (6, 3)], 'spec': [(5, 3), (6, 2), (6, 3)], 'sample-only': [(4, 3), (5, 2), (5, 3), (6, 2)], 'forward': [(0, 0)]},
 }
 RATIOS = [1, 2, 3, 4, 5, 6, 7]
+# high-cardinality targets (more strata than any small symbolic bound reaches): the target is concrete, the feature vector symbolic,
+# and the tie order of every sort that is not requested stable is a solver decision (numpy's default quicksort guarantees nothing)
+MANY = {'quick': [(33, [0, 0, 5], (15, 16)), (40, [7, 7], (31, 32))],
+        'thorough': [(33, [0, 0, 5], (15, 16)), (40, [7, 7], (31, 32)), (34, [1, 1, 1, 2, 33], (31, 32)), (64, [63, 0, 63], (63, 64)), (33, list(range(33)) + [4], (15, 16))]}
 
 INFO = {
     'engine': 'symx + z3',
     'explanation': 'Vectors symbolic, ratio r=k/8 per job, np.empty cells = fresh unconstrained integers (all allocator histories). Reachability of an uninitialised/out-of-range read, '
                    'equality of the sampled rows with the per-stratum-prefix specification and independence of the score from unsampled feature values are z3 queries per path.',
-    'bounds': {t: {c: [f'n={n},codes<{k},r in k/8' for n, k in v] for c, v in b.items()} for t, b in BOUNDS.items()},
+    'bounds': {t: dict({c: [f'n={n},codes<{k},r in k/8' for n, k in v] for c, v in b.items()}, **{'many-strata': [f'{nv} strata + rows {e}, r={a}/{b}, feature vector in {{0,1}}^n' for nv, e, (a, b) in MANY[t]]}) for t, b in BOUNDS.items()},
     'outside': ['ratios off the k/8 grid', 'the real allocator (any-bytes model instead)', 'float32 rounding'],
     'assumptions': ['stand-ins and transforms as in C01', 'np.empty(n) returns n cells holding arbitrary values', 'stratified_subsampling is compiled without boundscheck: an out-of-range index is a wild read, not an IndexError'],
     'job_timeout': {'quick': 240, 'thorough': 2400},
@@ -47,6 +51,9 @@ def jobs(tier):
         for n, K in lst:
             if cond == 'forward':
                 out.append({'cond': cond, 'n': 0, 'K': 0, 'pins': {}, 'label': 'ratio forwarding'})
+                for nv, extra, (rn, rd) in MANY[tier]:
+                    X = list(range(nv)) + list(extra)
+                    out.append({'cond': 'many-strata', 'n': len(X), 'K': nv, 'X': X, 'r': [rn, rd], 'pins': {}, 'weight': 2 ** len(X), 'label': f'{nv} strata, n={len(X)}, r={rn}/{rd}'})
                 continue
             for rk in RATIOS:
                 if int(F(rk, 8) * n) == 0 and cond != 'memsafe':
@@ -77,6 +84,8 @@ def run_job(job):
         from harness import C03
         r = C03.run_flag(job)
         return r
+    if cond == 'many-strata':
+        return run_many(job)
     n, K, rk, corr = job['n'], job['K'], job['rk'], job['corr']
     Kn = KM.kernel()
     r = F(rk, 8)
@@ -147,6 +156,48 @@ def run_job(job):
             elif not KM.close(sym, real):
                 out.error = f'stand-in disagrees with the compiled kernel on {w}: {sym} vs {real}'
             out.sample({'Y': w['Y'], 'X': w['X'], 'r': f'{rk}/8', 'score': real})
+    return hutil.run_symx(job, setup, body, wit=wit)
+
+
+def spec_rows(X, r):
+    q = int(int(r * len(X)) / len(set(X)))
+    return list(range(len(X))) if q == 0 else [i for v in sorted(set(X)) for i in [j for j in range(len(X)) if X[j] == v][:q]]
+
+
+def run_many(job):
+    X, r = job['X'], F(*job['r'])
+    n = len(X)
+    Kn = KM.kernel()
+    st = {}
+    idx = spec_rows(X, r)
+
+    def setup(ctx):
+        st['Y'] = [z3.Int(f'y{i}') for i in range(n)]
+        for v in st['Y']:
+            ctx.assume(v >= 0, v <= 1)
+
+    def wit(m):
+        return {'cond': 'many-strata', 'r': job['r'], 'corr': False, 'X': X, 'Y': [m.eval(v, model_completion=True).as_long() for v in st['Y']]}
+
+    def body(ctx, out):
+        xnp.UNSTABLE_TIES = True
+        try:
+            Xa = xnp.Arr(list(X), 'int32')
+            Ya = xnp.Arr([SInt(v, 0, 1) for v in st['Y']], 'int32')
+            fv, fc = Kn['numba_unique'](Xa)
+            Ys, Xs = Kn['stratified_subsampling'](Ya, Xa, r, fv)
+        finally:
+            xnp.UNSTABLE_TIES = False
+        out.never(ctx, z3.BoolVal(bool(ctx.uninit)), wit, 'a never-written cell of the index buffer is read')
+        out.never(ctx, z3.Or(ctx.oob) if ctx.oob else z3.BoolVal(False), wit, 'index out of range')
+        if ctx.uninit:
+            return
+        bad = [z3.BoolVal(len(Xs) != len(idx))]
+        for k in range(min(len(idx), len(Xs))):
+            bad.append(symx.zint(Xs.data[k]) != X[idx[k]])
+            bad.append(symx.zint(Ys.data[k]) != st['Y'][idx[k]])
+        out.never(ctx, z3.Or(bad), wit, 'sampled rows differ from the per-stratum prefix specification')
+        out.sample({'strata': job['K'], 'n': n, 'sample_size': len(Xs)})
     return hutil.run_symx(job, setup, body, wit=wit)
 
 
@@ -235,6 +286,26 @@ def _replay(w):
                         'what': f'mutual_info_estimator_numba(Y={Yv}, X={X}, r={r}, corr={corr}) after heap poisoning: (score, sampled rows) = {sorted(map(str, vals))[:4]}, abnormal exits {len(crashed)} (a never-written cell of the sampling index buffer is used as a row index)',
                         'detail': {'runs': runs}}
         return {'reproduced': False, 'what': f'no dependence on stale heap contents observed: {allruns[0]}'}
+    if w['cond'] == 'many-strata':
+        # the tie order of an unstable sort is not a function of the witness alone: the witness itself, then the same shape scaled up
+        import random as _r
+        import numpy as np
+        K = KM.real_kernel()
+        rng = _r.Random(5)
+        tries = [(X, Y)]
+        for n2 in (200, 600, 3000):
+            X2 = list(range(len(set(X)))) + [rng.randrange(len(set(X))) for _ in range(n2)]
+            tries.append((X2, [rng.randrange(2) for _ in X2]))
+        for X2, Y2 in tries:
+            for rr in ((r,) if X2 is X else (r, 0.5)):
+                Xn, Yn = np.array(X2, dtype=np.int32), np.array(Y2, dtype=np.int32)
+                fv, _ = K.numba_unique(Xn)
+                Ys, Xs = K.stratified_subsampling(Yn, Xn, np.float32(rr), fv)
+                idx = spec_rows(X2, rr)
+                exp = ([Y2[i] for i in idx], [X2[i] for i in idx])
+                if (list(map(int, Ys)), list(map(int, Xs))) != exp:
+                    return {'reproduced': True, 'signature': 'C04:sample-spec-many-strata', 'what': f'stratified_subsampling with {len(set(X2))} strata, n={len(X2)}, r={rr}: the sampled rows are not the per-stratum prefixes (first differing position {next((k for k, (a, b) in enumerate(zip(map(int, Ys), exp[0])) if a != b), len(exp[0]))})'}
+        return {'reproduced': False, 'what': 'sample equals specification on the witness and on scaled-up inputs of the same shape'}
     if w['cond'] == 'spec':
         import numpy as np
         K = KM.real_kernel()
